@@ -202,7 +202,8 @@ def run_script(sc):
     if exc is not None:
         ev.append({"e": "Raise", "what": exc})
     elif giles:
-        ev.append({"e": "Ret", "Nl": [int(x) for x in stats.mlmc_results.Nl], "cv": False, "bad": 0})
+        ev.append({"e": "Ret", "Nl": [int(x) for x in stats.mlmc_results.Nl], "cv": False, "bad": 0,
+                   "empty": [l for l, x in enumerate(stats.mlmc_results.Nl) if int(x) == 0]})
     else:
         ev.append(ret_event(stats, sc, log, MLMCResults))
     return {"tid": sc["tid"], "hdr": {"L0": sc["L0"], "N0": sc["N0"], "LMax": sc["LMax"], "fixed": bool(sc.get("fixed")),
@@ -269,6 +270,16 @@ def ret_event(stats, sc, log, MLMCResults):
             ref = reference_with_cv(stats, sc, log, MLMCResults, nlev)
             rk = ranks(flo + ref, rel=1e-9)
             out["cvobs"], out["cvref"] = rk[:len(flo)], rk[len(flo):]
+    # a returned level without any sample has no statistics (0/0): reported by its own clause, not as a sensor failure
+    out["empty"] = [l for l in range(nlev) if Nl[l] == 0]
+    if out["empty"]:
+        for key in ("mlN", "meanN", "vlN", "varN", "clN"):
+            if key in out:
+                out[key] = [0 if l in out["empty"] else v for l, v in enumerate(out[key])]
+        for key in ("cost", "priceD"):
+            if key in out and out[key] == -77777:
+                out[key] = 0
+                out["D"] = 0
     out["bad"] = count_bad(out) + count_bad([r for r in log if r["e"] == "Add"])
     return out
 
